@@ -3,6 +3,7 @@ package main
 // JSON-in-annotations model (DESIGN.md §2.5).
 
 import (
+	"strconv"
 	"bytes"
 	"encoding/json"
 	"fmt"
@@ -146,6 +147,13 @@ func icJSONGet(ex *Exec, fr *frame, fn *ssaFunction, args []Value, pos tokenPos)
 			return TupleV{n.scalar, tTrue}
 		case "num":
 			return TupleV{mkFromInt(n.scalar), tTrue}
+		case "float":
+			if fv, ok := n.raw.(FloatV); ok {
+				if it, ok := fv.intTerm(); ok {
+					return TupleV{mkFromInt(it), tTrue}
+				}
+				return TupleV{mkStr(strconv.FormatFloat(fv.f, 'g', -1, 64)), tTrue}
+			}
 		case "bool":
 			return TupleV{mkIte(n.scalar, mkStr("true"), mkStr("false")), tTrue}
 		case "null":
@@ -325,6 +333,10 @@ func (ex *Exec) jsonEncode(v Value, t types.Type, depth int) *JNode {
 	case "k8s.io/apimachinery/pkg/apis/meta/v1.Duration":
 		return &JNode{kind: "time", vals: []*JNode{{kind: "raw", raw: v}}, typ: t}
 	}
+	if namedPath(t) == "k8s.io/apimachinery/pkg/apis/meta/v1/unstructured.Unstructured" {
+		// Unstructured.MarshalJSON encodes the content map
+		return ex.jsonEncode(v.(StructV).fields[0], tyMapStrIface, depth+1)
+	}
 	if np := namedPath(t); np != "" && ex.hasMethod(t, "MarshalJSON") {
 		ex.unsupported("json.Marshal of type with custom MarshalJSON: " + np)
 	}
@@ -339,6 +351,9 @@ func (ex *Exec) jsonEncode(v Value, t types.Type, depth int) *JNode {
 		case info&types.IsInteger != 0:
 			return &JNode{kind: "num", scalar: asTerm(v)}
 		case info&types.IsFloat != 0:
+			if fv, ok := v.(FloatV); ok && fv.it != nil {
+				return &JNode{kind: "num", scalar: fv.it}
+			}
 			return &JNode{kind: "float", raw: v}
 		}
 	case *types.Pointer:
@@ -445,6 +460,12 @@ func (ex *Exec) isEmptyJSON(v Value) (bool, bool) {
 			return x.s == "", true
 		}
 	case FloatV:
+		if x.it != nil {
+			if k, ok := x.it.constInt(); ok {
+				return k == 0, true
+			}
+			return false, false
+		}
 		return x.f == 0, true
 	case PtrV:
 		return x.c == nil, true
@@ -493,7 +514,7 @@ func genericToJNode(v interface{}) *JNode {
 			return &JNode{kind: "num", scalar: mkInt(i)}
 		}
 		f, _ := x.Float64()
-		return &JNode{kind: "float", raw: FloatV{f}}
+		return &JNode{kind: "float", raw: FloatV{f: f}}
 	case []interface{}:
 		n := &JNode{kind: "arr"}
 		for _, e := range x {
@@ -649,7 +670,7 @@ func (ex *Exec) jsonDecodeInto(n *JNode, t types.Type, c *Cell, depth int) *json
 				ex.store(c, n.raw)
 			case "num":
 				if k, ok := n.scalar.constInt(); ok {
-					ex.store(c, FloatV{float64(k)})
+					ex.store(c, FloatV{f: float64(k)})
 				} else {
 					ex.unsupported("json: symbolic number into float")
 				}
@@ -730,9 +751,9 @@ func (ex *Exec) jsonToGeneric(n *JNode, depth int) Value {
 	case "num":
 		// encoding/json decodes numbers into float64; kept as an integer-valued term tagged float64
 		if k, ok := n.scalar.constInt(); ok {
-			return IfaceV{t: types.Typ[types.Float64], v: FloatV{float64(k)}}
+			return IfaceV{t: types.Typ[types.Float64], v: FloatV{f: float64(k)}}
 		}
-		ex.unsupported("json: symbolic number decoded into interface{}")
+		return IfaceV{t: types.Typ[types.Float64], v: FloatV{it: n.scalar}}
 	case "float":
 		return IfaceV{t: types.Typ[types.Float64], v: n.raw}
 	case "arr":
